@@ -303,7 +303,15 @@ impl Field {
             //# If these fields are present, they MUST NOT be
             //# empty.
             b":authority" => Field::Authority(try_value(name, value)?),
-            b":path" => Field::Path(try_value(name, value)?),
+            b":path" => {
+                // `PathAndQuery` cuts its input at a '#' without looking at the rest: a fragment
+                // is not a part of the request target, and whatever follows the '#', permitted
+                // in a field value or not, would be accepted unseen
+                if value.as_ref().contains(&b'#') {
+                    return Err(HeaderError::invalid_value(name, value));
+                }
+                Field::Path(try_value(name, value)?)
+            }
             b":method" => Field::Method(
                 Method::from_bytes(value.as_ref())
                     .map_err(|_| HeaderError::invalid_value(name, value))?,
